@@ -97,7 +97,9 @@ func c07Run(b *core.B) {
 		expr  string
 		truth bool
 	}
-	vals := []kv{{"nope_unknown", false}, {"nilvar", false}}
+	vals := []kv{{"nope_unknown", false}, {"nilvar", false},
+		// values written down in the template itself: what is true of 0 in a variable is true of the literal
+		{"0", true}, {"0.0", true}, {"1", true}, {`""`, false}, {`"a"`, true}, {"``", false}, {"true", true}, {"false", false}, {"nil", false}, {"(0)", true}, {"(false)", false}}
 	for i, k := range Kinds {
 		vals = append(vals, kv{"v_" + k.Name, c07Truth(k.Name)})
 		// the same value reached as a map element and as a slice element
@@ -113,7 +115,7 @@ func c07Run(b *core.B) {
 			if !mine() {
 				continue
 			}
-			if f.name == "if-in-fn" && (v.expr == "v_nil" || v.expr == "nilvar" || v.expr == "nope_unknown") {
+			if f.name == "if-in-fn" && (v.expr == "v_nil" || v.expr == "nilvar" || v.expr == "nope_unknown" || v.expr == "nil") {
 				continue
 			}
 			if strings.Contains(v.expr, "[") && strings.Contains(f.tmpl, "V && V") {
